@@ -489,8 +489,9 @@ PROPERTIES OnlyOwnDir
 CHECK_DEADLOCK FALSE
 """
 DYN_NAMES = {"go", "go+reflection", "fastgo+no_fmt", "go/dump", "go+reflection/patch", "go/flat"}   # MC_Determinism!DynNames
-FULL_NAMES = {"go+reflection", "fastgo+no_fmt", "go/dump"}      # MC_Determinism!CfgFull
-CFG_NAMES = {"CfgDyn": DYN_NAMES, "CfgFull": FULL_NAMES, "CfgP2": {"go+reflection/patch", "fastgo+no_fmt"}, "CfgQuick": None}
+FULL_NAMES = {"fastgo+no_fmt", "go/dump"}      # MC_Determinism!CfgFull
+CFG_NAMES = {"CfgDyn": DYN_NAMES, "CfgFull": FULL_NAMES, "CfgP2": {"go+reflection/patch", "fastgo+no_fmt"},
+             "CfgPW2": {"go+reflection", "fastgo+no_fmt"}, "CfgQuick": None}
 PROG_WEIGHTS = {"ProgsW1": {0, 1}, "ProgsW1Low": {0, 1}, "ProgsW2": {0, 1, 2}, "ProgsFull": {99}}
 MC_RUNS = {
     "quick": [dict(layer="B", progs="ProgsW1Low", cfgs="CfgDyn", perm=2, jobs=2, stale="StaleBoth"),
@@ -503,7 +504,7 @@ MC_RUNS = {
                  dict(layer="B", progs="ProgsW1Low", cfgs="CfgDyn", perm=2, jobs=3, stale="StaleAny"),
                  dict(layer="P", progs="ProgsW1Low", cfgs="CfgDyn", perm=2, jobs=3, stale="StaleAny"),
                  dict(layer="B", progs="ProgsW2", cfgs="CfgDyn", perm=2, jobs=2, stale="StaleBoth"),
-                 dict(layer="P", progs="ProgsW2", cfgs="CfgDyn", perm=2, jobs=2, stale="StaleBoth"),
+                 dict(layer="P", progs="ProgsW2", cfgs="CfgPW2", perm=2, jobs=2, stale="StaleBoth"),
                  dict(layer="P", progs="ProgsFull", cfgs="CfgFull", perm=2, jobs=2, stale="StaleBoth")],
 }
 
